@@ -72,8 +72,19 @@ ANYF = ('filter_candset is verified once against an abstract filter_pair (ASSUME
         'filter object and the two values, which each concrete filter_pair contract under verification refines)')
 SIMF = 'the sim_function passed to apply_matcher is an arbitrary deterministic function of its two arguments (uninterpreted)'
 
-PROPS['C01'] = dict(functions=ARITH + [SSJ] + JOINS + OVERLAP_CORE + OVERLAP_API, trusted=[PSM, PANDAS, LEMMA_INJ, LEMMA_CNT, JOBLIB])
-PROPS['C02'] = dict(functions=[SSJ] + HELPERS + JOINS + OVERLAP_CORE + OVERLAP_API, trusted=[PSM, PANDAS, LEMMA_INJ, LEMMA_CNT, JOBLIB])
+OVJ = 'py_stringsimjoin.join.overlap_coefficient_join_py.'
+OVC = [OVJ + '_overlap_coefficient_join_split', OVJ + 'overlap_coefficient_join_py']
+EDJ = 'py_stringsimjoin.join.edit_distance_join_py.'
+ED = [EDJ + '_edit_distance_join_split', EDJ + 'edit_distance_join_py']
+PXI = 'py_stringsimjoin.index.prefix_index.PrefixIndex.'
+PXF = 'py_stringsimjoin.filter.prefix_filter.PrefixFilter.'
+PREFIX_CORE = [PXI + '__init__', PXI + 'build', PXF + '__init__', PXF + 'find_candidates']
+LEMMA_ED = ('two facts of pure mathematics are ASSUMED for the completeness half of C03: |len(l) - len(r)| <= Levenshtein(l, r), and the '
+            'q-gram prefix principle (distance <= t and a shared q-gram imply a shared token in the (q*t+1)-prefixes under one total order)')
+
+PROPS['C01'] = dict(functions=ARITH + [SSJ] + JOINS + OVERLAP_CORE + OVERLAP_API + OVC, trusted=[PSM, PANDAS, LEMMA_INJ, LEMMA_CNT, JOBLIB])
+PROPS['C02'] = dict(functions=[SSJ] + HELPERS + JOINS + OVERLAP_CORE + OVERLAP_API + OVC, trusted=[PSM, PANDAS, LEMMA_INJ, LEMMA_CNT, JOBLIB])
+PROPS['C03'] = dict(functions=ED + PREFIX_CORE + ARITH[2:3] + HELPERS, trusted=[PSM, PANDAS, JOBLIB, LEMMA_ED])
 PROPS['C04'] = dict(functions=ARITH + SIZE_CORE + SIZE_API + OVERLAP_CORE + OVERLAP_API[:2] + CANDSET,
                     trusted=[PSM, PANDAS, LEMMA_CNT, JOBLIB, ANYF])
 PROPS['C05'] = dict(functions=MATCHER + [GH + 'build_dict_from_table', GH + 'split_table',
@@ -82,15 +93,17 @@ PROPS['C05'] = dict(functions=MATCHER + [GH + 'build_dict_from_table', GH + 'spl
                                          GH + 'remove_redundant_attrs'],
                     trusted=[PANDAS, PSM, JOBLIB, GENTOK, SIMF])
 PROPS['C06'] = dict(functions=CANDSET + OVERLAP_CORE + OVERLAP_API[:2], trusted=[PSM, PANDAS, LEMMA_CNT, JOBLIB, ANYF])
-PROPS['C09'] = dict(functions=[SSJ] + JOINS + OVERLAP_CORE + OVERLAP_API[:1] + SIZE_CORE + SIZE_API, trusted=[PSM, PANDAS, LEMMA_INJ])
-PROPS['C11'] = dict(functions=HELPERS + [SSJ, MVH] + JOINS + OVERLAP_CORE[-1:] + OVERLAP_API[1:] + SIZE_CORE[-1:] + SIZE_API[1:],
+PROPS['C09'] = dict(functions=[SSJ] + JOINS + OVERLAP_CORE + OVERLAP_API[:1] + SIZE_CORE + SIZE_API + OVC, trusted=[PSM, PANDAS, LEMMA_INJ])
+PROPS['C11'] = dict(functions=HELPERS + [SSJ, MVH] + JOINS + OVERLAP_CORE[-1:] + OVERLAP_API[1:] + SIZE_CORE[-1:] + SIZE_API[1:] + OVC + ED,
                     trusted=[PANDAS])
-PROPS['C08'] = dict(functions=[MVH] + HELPERS + JOINS + OVERLAP_API + SIZE_API + CANDSET + MATCHER, trusted=[PANDAS])
+PROPS['C08'] = dict(functions=[MVH] + HELPERS + JOINS + OVERLAP_API + SIZE_API + CANDSET + MATCHER + OVC[1:] + ED[1:], trusted=[PANDAS])
 PROPS['C10'] = dict(functions=[GH + 'split_table', GH + 'get_num_processes_to_launch'] + JOINS + OVERLAP_API[1:] + SIZE_API[1:] +
-                    CANDSET[-1:] + MATCHER[-1:], trusted=[PANDAS, JOBLIB])
-PROPS['C12'] = dict(functions=JOINS + OVERLAP_API[1:] + SIZE_API[1:] + CANDSET[-1:] + MATCHER[-1:], trusted=[PANDAS, PSM, JOBLIB])
-PROPS['C14'] = dict(functions=ARITH[:2] + SIZE_CORE + SIZE_API + OVERLAP_CORE + OVERLAP_API[:2], trusted=[PSM, PANDAS, LEMMA_CNT, JOBLIB],
+                    CANDSET[-1:] + MATCHER[-1:] + OVC[1:] + ED[1:], trusted=[PANDAS, JOBLIB])
+PROPS['C12'] = dict(functions=JOINS + OVERLAP_API[1:] + SIZE_API[1:] + CANDSET[-1:] + MATCHER[-1:] + OVC[1:] + ED[1:],
+                    trusted=[PANDAS, PSM, JOBLIB])
+PROPS['C14'] = dict(functions=ARITH[:2] + SIZE_CORE + SIZE_API + OVERLAP_CORE + OVERLAP_API[:2] + PREFIX_CORE,
+                    trusted=[PSM, PANDAS, LEMMA_CNT, JOBLIB],
                     bounded_extra=[dict(fn='spec.size_window_tightness', case=c_) for c_ in
                                    ('JACCARD', 'COSINE', 'DICE', 'COSINE-right-empty')])
-PROPS['C15'] = dict(functions=VALIDATORS + JOINS + [OVF + '__init__', SZF + '__init__'] + OVERLAP_API[1:] + SIZE_API[1:] +
-                    CANDSET[-1:] + MATCHER[-1:], trusted=[PANDAS])
+PROPS['C15'] = dict(functions=VALIDATORS + JOINS + [OVF + '__init__', SZF + '__init__', PXF + '__init__'] + OVERLAP_API[1:] +
+                    SIZE_API[1:] + CANDSET[-1:] + MATCHER[-1:] + OVC[1:] + ED[1:], trusted=[PANDAS])
